@@ -184,7 +184,7 @@ func clipRings(box orb.Bound, rings []orb.Ring) (open []orb.LineString, closed [
 			continue // outside of bound
 		}
 
-		if r.Closed() {
+		if r.Closed() || (len(r) == 3 && r[0] == r[2]) {
 			// if the input was a closed ring where the endpoints were within the bound,
 			// then join the sections.
 
